@@ -43,6 +43,11 @@ round 3:         (model Cli/GenModel.v, FormatModel.v; rendering Cli/GenShow.v)
                    against the exact statement of C20_patch_reproduces_any_format, and the
                    codec witnesses FORMAT_WITNESSES (real codecs outside the round-trip
                    hypothesis) replayed at every run.
+wave 2:          * extension "Options": the option plumbing of `deep diff` (Cli/OptModel.v): exit status
+                   of the diff command, the keyword arguments DeepDiff receives, reproduction + identical
+                   patch bytes under every sampled exact option set, OPTION_WITNESSES.
+                 * extension "Concurrent": two real `deep patch` processes on one file, scheduled by the
+                   parent before Load / Backup / Open / Flush / Remove, against Cli/ConcModel.v.
 """
 import builtins
 import copy
@@ -386,6 +391,8 @@ class Injector:
         self.nwrites = 0
         self.closed_disk = None
         self.closed = False
+        self.gate = None            # (read fd, write fd): wait for the scheduler before each gated step (concurrency stream)
+        self.gated = set()
         self.fired = {}      # step -> text on disk at A right after the failing step (None = absent)
         self.tags = {}       # id(exception) -> (kind, step)
         self.keep = []
@@ -399,6 +406,10 @@ class Injector:
             self.keep.append(e)
 
     def due(self, step, variant=None):
+        if self.gate is not None and step in CONC_GATED and step not in self.gated:
+            self.gated.add(step)
+            os.write(self.gate[1], ("at:%s\n" % step).encode())
+            os.read(self.gate[0], 1)
         if not self.trace or self.trace[-1] != step:
             self.trace.append(step)
             if self.track and step not in self.disk_before:
@@ -2184,6 +2195,361 @@ def history_task(args):
 
 
 # --------------------------------------------------------------------------
+# wave 2: the option plumbing of `deep diff` (model: Cli/OptModel.v) - extension "Options"
+# --------------------------------------------------------------------------
+
+OPT_HEADER = ("From DD Require Import Base.PyStr Base.Value Diff.DiffModel Cli.OptModel.\n"
+              "Local Open Scope Z_scope.\n"
+              "Definition show_o (o : opts) : sx := let k := kwargs_of o in\n"
+              "  SL [sx_bool (delta_possible o); sx_bool (exact o); sx_bool (k_ignore_private_variables k);\n"
+              "      sx_nat (k_log_frequency_in_sec k); sx_bool (k_progress_logger_error k); sx_nat (fst (k_threshold k)); sx_nat (snd (k_threshold k))].")
+
+# name -> (cli arguments, field updates of the model's option record)
+IGNORING = {"IExcludeRegex": ["--exclude-regex-paths", "zz"], "ISignificantDigits": ["--significant-digits", "2"],
+            "IMathEpsilon": ["--math-epsilon", "0.1"], "IStringCase": ["--ignore-string-case"],
+            "INumericType": ["--ignore-numeric-type-changes"], "IStringType": ["--ignore-string-type-changes"],
+            "ITypeSubclasses": ["--ignore-type-subclasses"], "INanInequality": ["--ignore-nan-inequality"],
+            "IMaxDiffs": ["--max_diffs", "1"], "ITruncateDatetime": ["--truncate-datetime", "day"]}
+THRESHOLDS = {"0": (0, 1), "0.33": (33, 100), "0.5": (1, 2), "1": (1, 1), "2": (2, 1)}
+OPT_ATOMS = (
+    [("thr:" + t, ["--threshold-to-diff-deeper", t], {"thr": THRESHOLDS[t]}) for t in ("0", "0.5", "1", "2")] +
+    [("private", ["--include-private-variables"], {"include_private": True}),
+     ("exclude", ["--exclude-paths", "root['a']"], {"exclude": ["a"]}),
+     ("exclude2", ["--exclude-paths", "root['a']", "--exclude-paths", "root['zz']"], {"exclude": ["a", "zz"]}),
+     ("ignore_order", ["--ignore-order"], {"ignore_order": True}),
+     ("report_repetition", ["--report-repetition"], {"report_repetition": True}),
+     ("group_by", ["--group-by", "id"], {"group_by": True}),
+     ("purge0", ["--cache-purge-level", "0"], {"purge": 0}), ("purge2", ["--cache-purge-level", "2"], {"purge": 2}),
+     ("verbose0", ["--verbose-level", "0"], {"verbose": 0}), ("verbose2", ["--verbose-level", "2"], {"verbose": 2}),
+     ("cache", ["--cache-size", "100", "--cache-tuning-sample-size", "5"], {"cache_size": 100, "cache_tuning": 5}),
+     ("cutoffs", ["--cutoff-distance-for-pairs", "0.1", "--cutoff-intersection-for-pairs", "0.9"], {"cut_d": 10, "cut_i": 90}),
+     ("distance", ["--get-deep-distance"], {"distance": True}),
+     ("max_passes", ["--max-passes", "3"], {"max_passes": 3}),
+     ("format_e", ["--number-format-notation", "e"], {"format_e": True}),
+     ("logger", ["--progress-logger", "error", "--log-frequency-in-sec", "7"], {"progress_error": True, "log_freq": 7}),
+     ("debug", ["--debug"], {"debug": True})] +
+    [("ign:" + k, v, {"ignoring": [k]}) for k, v in sorted(IGNORING.items())])
+OPT_DEFAULT = {"thr": (33, 100), "include_private": False, "exclude": [], "ignoring": [], "ignore_order": False,
+               "report_repetition": False, "group_by": False, "purge": 1, "verbose": 1, "cache_size": 0, "cache_tuning": 0,
+               "cut_d": 30, "cut_i": 70, "distance": False, "max_passes": 10000000, "format_e": False, "progress_error": False,
+               "log_freq": 0, "create_patch": True, "debug": False}
+
+
+def opt_merge(atoms):
+    o, args = dict(OPT_DEFAULT), []
+    for (_n, a, upd) in atoms:
+        args += a
+        for k, v in upd.items():
+            o[k] = (o[k] + v) if k in ("exclude", "ignoring") else v
+    return o, args
+
+
+def coq_opts(o):
+    b = core.coq_bool
+    excl = "[" + "; ".join("[PKey (AStr %s)]" % core.coq_pystr(k) for k in o["exclude"]) + "]"
+    return ("(mkOpts %d %d %s %s [%s] %s %s %s %d %d %d %d %d %d %s %d%%N %s %s %d %s %s)" % (
+        o["thr"][0], o["thr"][1], b(o["include_private"]), excl, "; ".join(o["ignoring"]), b(o["ignore_order"]),
+        b(o["report_repetition"]), b(o["group_by"]), o["purge"], o["verbose"], o["cache_size"], o["cache_tuning"],
+        o["cut_d"], o["cut_i"], b(o["distance"]), o["max_passes"], b(o["format_e"]), b(o["progress_error"]), o["log_freq"],
+        b(o["create_patch"]), b(o["debug"])))
+
+
+def py_exact(o):
+    """the model's [exact], recomputed here only to decide what the direct oracle demands (the Coq value is
+    compared with the implementation's behaviour in the correspondence case)"""
+    possible = not o["group_by"] and not (o["ignore_order"] and not o["report_repetition"]) and o["purge"] != 2
+    return possible, possible and not o["ignore_order"] and not o["ignoring"] and not o["exclude"]
+
+
+OPTION_PAIRS = [
+    ({"a": 1, "b": 2, "l": [1, 2, 3], "s": "Ab"}, {"a": 5, "b": 3, "l": [3, 2, 1, 4], "s": "aB", "n": None}),
+    ({"a": {"x": 1.234, "y": [1, 1, 2]}, "k": "v"}, {"a": {"x": 1.2341, "y": [2, 1, 1, 1]}, "k": "w", "__p": 1}),
+    ([{"id": 1, "v": 1.0}, {"id": 2, "v": "x"}], [{"id": 1, "v": 1.05}, {"id": 2, "v": "X"}, {"id": 3, "v": []}]),
+    ({"a": 1, "b": 2, "c": 3}, {"x": 1, "y": 2, "c": 3}),
+]
+# option sets under which diff -> patch does NOT reproduce the file (or cannot start), on a pair that is reproduced
+# without the option: (name, A, B, cli options, expected: 'diff_fails' | 'differs')
+OPTION_WITNESSES = [
+    ("ignore-order-alone", [1, 2, 3], [3, 2, 1, 4], ["--ignore-order"], "diff_fails"),
+    ("group-by", [{"id": 1, "v": 1}], [{"id": 1, "v": 2}], ["--group-by", "id"], "diff_fails"),
+    ("cache-purge-level-2", {"x": 1}, {"x": 2}, ["--cache-purge-level", "2"], "diff_fails"),
+    ("ignore-order+report-repetition", [1, 2, 3], [3, 2, 1, 4], ["--ignore-order", "--report-repetition"], "differs"),
+    ("exclude-paths", {"a": 1, "b": 2}, {"a": 5, "b": 3}, ["--exclude-paths", "root['a']"], "differs"),
+    ("exclude-regex-paths", {"a": 1, "b": 2}, {"a": 5, "b": 3}, ["--exclude-regex-paths", "a"], "differs"),
+    ("significant-digits", {"x": 1.234}, {"x": 1.2341}, ["--significant-digits", "2"], "differs"),
+    ("math-epsilon", {"x": 1.0}, {"x": 1.05}, ["--math-epsilon", "0.1"], "differs"),
+    ("ignore-string-case", {"x": "Ab"}, {"x": "aB"}, ["--ignore-string-case"], "differs"),
+    ("max_diffs", {"x": 1, "y": 1}, {"x": 2, "y": 2}, ["--max_diffs", "1"], "differs"),
+    ("private-keys-default", {"__a": 1}, {"__a": 2}, [], "differs"),
+]
+
+
+def opt_run(a_doc, b_doc, args, work, want_kwargs=False):
+    """`deep diff A B --create-patch <args>` then `deep patch A`: -> dict"""
+    from click.testing import CliRunner
+    import deepdiff.commands as cmds
+    d = tempfile.mkdtemp(dir=work)
+    A, B, P = os.path.join(d, "a.json"), os.path.join(d, "b.json"), os.path.join(d, "delta.pickle")
+    for p, doc in ((A, a_doc), (B, b_doc)):
+        with open(p, "w") as f:
+            f.write(json_src(doc))
+    out = {"kwargs": None}
+    if want_kwargs:
+        real = cmds.DeepDiff
+        seen = {}
+
+        class _Seen(Exception):
+            pass
+
+        def rec(**kw):
+            seen.update(kw)
+            raise _Seen("recorded")
+        cmds.DeepDiff = rec
+        try:
+            CliRunner().invoke(cmds.diff, [A, B, "--create-patch"] + args)
+        finally:
+            cmds.DeepDiff = real
+        if seen:
+            out["kwargs"] = {"ignore_private_variables": seen.get("ignore_private_variables"),
+                             "log_frequency_in_sec": seen.get("log_frequency_in_sec"),
+                             "progress_error": seen.get("progress_logger") == cmds.logger.error,
+                             "threshold": seen.get("threshold_to_diff_deeper"),
+                             "popped": not any(k in seen for k in ("debug", "create_patch", "include_private_variables")),
+                             "docs": seen.get("t1") == a_doc and seen.get("t2") == b_doc}
+    r = CliRunner().invoke(cmds.diff, [A, B, "--create-patch"] + args)
+    out["diff_exit"] = r.exit_code if (r.exception is None or isinstance(r.exception, SystemExit)) else "exc:" + type(r.exception).__name__
+    out["patch_bytes"] = r.stdout_bytes if r.exit_code == 0 else None
+    if r.exit_code == 0:
+        with open(P, "wb") as f:
+            f.write(r.stdout_bytes)
+        r2 = CliRunner().invoke(cmds.patch, [A, P])
+        out["patch_exit"] = r2.exit_code
+        try:
+            from deepdiff.serialization import json_loads
+            out["after"] = json_loads(read_text(A))
+        except Exception as e:
+            out["after"] = "<unloadable:%s>" % type(e).__name__
+    shutil.rmtree(d, ignore_errors=True)
+    return out
+
+
+def options_task(args):
+    seed, thorough, scratch = args
+    sys.path.insert(0, core.REPO)
+    _quiet()
+    rng = random.Random(seed)
+    work = tempfile.mkdtemp(prefix="op_", dir=scratch)
+    res = {"cases": [], "fails": [], "counts": {}, "seen": [], "samples": [], "breaks": []}
+
+    def count(k):
+        res["counts"][k] = res["counts"].get(k, 0) + 1
+
+    sets = [[]] + [[a] for a in OPT_ATOMS]
+    n_multi = 250 if thorough else 60
+    while len(sets) < 1 + len(OPT_ATOMS) + n_multi:
+        k = rng.choice([2, 2, 3, 4])
+        cand = rng.sample(OPT_ATOMS, k)
+        names = [c[0].split(":")[0] for c in cand]
+        if len(set(names)) == len(names) and not ({"purge0", "purge2"} <= set(c[0] for c in cand)) \
+                and not ({"verbose0", "verbose2"} <= set(c[0] for c in cand)) and not ({"exclude", "exclude2"} <= set(c[0] for c in cand)):
+            sets.append(cand)
+    base_bytes = {}
+    for atoms in sets:
+        o, cli = opt_merge(atoms)
+        possible, exact = py_exact(o)
+        pairs = OPTION_PAIRS if (thorough or len(atoms) <= 1) else rng.sample(OPTION_PAIRS, 2)
+        for pi, (a_doc, b_doc) in enumerate(OPTION_PAIRS):
+            if (a_doc, b_doc) not in pairs:
+                continue
+            r = opt_run(a_doc, b_doc, cli, work, want_kwargs=(pi == 0))
+            if not atoms:
+                base_bytes[pi] = r["patch_bytes"]
+            tag = {"stream": "options", "options": cli, "a": json.dumps(a_doc), "b": json.dumps(b_doc)}
+            res["seen"].append((("options", tuple(cli), pi), True))
+            # model vs implementation: does the diff command succeed; the plumbing
+            kw = r["kwargs"]
+            thr = None
+            if kw is not None:
+                t = kw["threshold"]
+                thr = [k for k, v in THRESHOLDS.items() if abs(float(k) - t) < 1e-9]
+                exp_kw = [bool(kw["ignore_private_variables"]), int(kw["log_frequency_in_sec"]), bool(kw["progress_error"])] + list(THRESHOLDS[thr[0]])
+                if not (kw["popped"] and kw["docs"]):
+                    res["breaks"].append({"name": "options", "options": cli, "error": "debug/create_patch/include_private_variables reached DeepDiff, or t1/t2 are not the loaded documents"})
+            else:
+                ko = o
+                exp_kw = [not ko["include_private"], 0, ko["progress_error"]] + list(ko["thr"])     # not observed on this pair: the model's own value
+            expr = "show_o %s" % coq_opts(o)
+            res["cases"].append((expr, [r["diff_exit"] == 0, exact] + exp_kw, tag))
+            count("options:diff_%s" % ("ok" if r["diff_exit"] == 0 else "fails"))
+            if (r["diff_exit"] == 0) != possible:
+                continue                    # reported by the correspondence case above
+            if r["diff_exit"] != 0:
+                continue
+            same = doc_eq(r["after"], b_doc)
+            if exact:
+                count("options:exact_checked")
+                nopriv = o["include_private"] or not any(k.startswith("__") for doc in (a_doc, b_doc) for k in keys_of(doc))
+                if r["patch_exit"] != 0:
+                    res["fails"].append((tag, "exact options: `deep patch` failed"))
+                elif nopriv and not same:
+                    res["fails"].append((dict(tag, after=repr(r["after"])), "exact options (nothing is ignored): after diff --create-patch <options> / patch, A does not load equal to B"))
+                elif o["thr"] == (33, 100) and not o["include_private"] and base_bytes.get(pi) is not None and \
+                        r["patch_bytes"] != base_bytes[pi]:
+                    res["fails"].append((tag, "options the model treats as no-ops changed the bytes of the patch file"))
+            else:
+                count("options:inexact:%s" % ("still_equal" if same else "differs"))
+    shutil.rmtree(work, ignore_errors=True)
+    return res
+
+
+def option_witness(ctx, name, a_doc, b_doc, cli, expect):
+    base = opt_run(a_doc, b_doc, [] if cli else ["--include-private-variables"], ctx.scratch)
+    r = opt_run(a_doc, b_doc, cli, ctx.scratch)
+    got = "diff_fails" if r["diff_exit"] != 0 else ("reproduces" if doc_eq(r["after"], b_doc) else "differs")
+    ok_base = base["diff_exit"] == 0 and doc_eq(base["after"], b_doc)
+    ctx.evaluations += 1
+    ctx.count("option_witness:%s:%s" % (name, got))
+    if got != expect or not ok_base:
+        ctx.break_("correspondence", {"name": "OPTION_WITNESSES", "witness": name, "expected": expect, "observed": got,
+                                      "reproduced_without_the_option": ok_base,
+                                      "meaning": "the implementation no longer behaves as documented for this option witness"})
+
+
+# --------------------------------------------------------------------------
+# wave 2: two concurrent `deep patch` commands, scheduled step by step (model: Cli/ConcModel.v) - extension
+# --------------------------------------------------------------------------
+
+CONC_GATED = ("load_doc", "backup", "open", "close", "remove")      # = CLoad, CBackup, COpen, CFlush, CRemove
+CONC_HEADER = ("From DD Require Import Cli.ConcModel.\n"
+               "Definition sx_hist (o : option hist) : sx := sx_opt (sx_list (fun n : N => SZ (Z.of_N n))) o.\n"
+               "Definition sx_st (p : proc) : sx := SA (match p_status p with Finished => \"ok\" | Failed _ => \"fail\" | Running => \"running\" end).\n"
+               "Definition show_conc (k1 k2 : bool) (il : list bool) : sx := let '(p1, p2, f) := run2 k1 k2 il in\n"
+               "  SL [sx_hist (content_of (c_A f) f); sx_hist (content_of (c_bak f) f); sx_st p1; sx_st p2].")
+
+
+def _conc_hist(text):
+    """file content -> the tags of the updates it contains, latest first (None: no file, []: empty file)"""
+    if text is None:
+        return None
+    if text == "":
+        return []
+    try:
+        return [v for v in reversed(list(json.loads(text).values()))]
+    except Exception:
+        return [-1]
+
+
+def conc_run(k1, k2, il, deltas, work):
+    """two real `deep patch` processes on one a.json; each waits for the scheduler before Load / Backup / Open /
+    Flush (close) / Remove; `il` (False = process 1 moves) is the interleaving"""
+    import select
+    from click.testing import CliRunner
+    from deepdiff.commands import patch
+    d = tempfile.mkdtemp(dir=work)
+    A = os.path.join(d, "a.json")
+    with open(A, "w") as f:
+        f.write('{"v": 0}')
+    kids = []
+    for i, keep in enumerate((k1, k2)):
+        P = os.path.join(d, "d%d.pickle" % i)
+        with open(P, "wb") as f:
+            f.write(deltas[i])
+        go_r, go_w = os.pipe()
+        ev_r, ev_w = os.pipe()
+        pid = os.fork()
+        if pid == 0:
+            code = 70
+            try:
+                inj = Injector(A, P, {})
+                inj.gate = (go_r, ev_w)
+                with inj:
+                    r = CliRunner().invoke(patch, [A, P] + (["--backup"] if keep else []))
+                os.write(ev_w, ("exit:%d\n" % r.exit_code).encode())
+                code = 0
+            finally:
+                os._exit(code)
+        kids.append({"pid": pid, "go": go_w, "ev": ev_r, "done": False, "exit": None, "buf": b""})
+
+    def wait(k):
+        while b"\n" not in k["buf"]:
+            ready, _, _ = select.select([k["ev"]], [], [], 60)
+            c = os.read(k["ev"], 256) if ready else b""
+            if not c:
+                k["done"], k["exit"] = True, "died"
+                return
+            k["buf"] += c
+        line, k["buf"] = k["buf"].split(b"\n", 1)
+        if line.startswith(b"exit:"):
+            k["done"], k["exit"] = True, int(line[5:])
+
+    for k in kids:
+        wait(k)                              # both stand before Load
+    for b in il:
+        k = kids[1 if b else 0]
+        if k["done"]:
+            continue
+        os.write(k["go"], b"g")
+        wait(k)
+    for k in kids:                            # nothing should be left; let stragglers finish
+        while not k["done"]:
+            os.write(k["go"], b"g")
+            wait(k)
+        os.waitpid(k["pid"], 0)
+        for fd in (k["go"], k["ev"]):
+            os.close(fd)
+    obs = [sx_file(_conc_hist(read_text(A))), sx_file(_conc_hist(read_text(A + ".bak"))),
+           "ok" if kids[0]["exit"] == 0 else "fail", "ok" if kids[1]["exit"] == 0 else "fail"]
+    shutil.rmtree(d, ignore_errors=True)
+    return obs
+
+
+def concurrent_task(args):
+    seed, thorough, scratch = args
+    sys.path.insert(0, core.REPO)
+    _quiet()
+    rng = random.Random(seed)
+    work = tempfile.mkdtemp(prefix="cc_", dir=scratch)
+    res = {"cases": [], "fails": [], "counts": {}, "seen": [], "samples": [], "breaks": []}
+    deltas = []
+    for i in (1, 2):
+        rc, db, _e, _ok = run_diff('{"v": 0}', json.dumps({"v": 0, "p%d" % i: i}), work)
+        deltas.append(db)
+    for (k1, k2) in ((False, False), (True, True), (True, False), (False, True)):
+        n1, n2 = (4 if k1 else 5), (4 if k2 else 5)
+        ils = set()
+        if thorough and not k1 and not k2:
+            import itertools
+            for pos in itertools.combinations(range(n1 + n2), n2):
+                ils.add(tuple(i in pos for i in range(n1 + n2)))
+        fixed = [[False] * n1 + [True] * n2, [True] * n2 + [False] * n1,
+                 [False, True] + [False] * (n1 - 1) + [True] * (n2 - 1)]
+        if not k1 and not k2:
+            fixed += [[False, True, False, False, False, False, True, True, True, True],
+                      [False, False, False, False, True, True, False, True, True, True]]
+        for il in fixed:
+            ils.add(tuple(il))
+        while len(ils) < (60 if thorough else 14):
+            il = [False] * n1 + [True] * n2
+            rng.shuffle(il)
+            ils.add(tuple(il))
+        for il in sorted(ils):
+            obs = conc_run(k1, k2, il, deltas, work)
+            expr = "show_conc %s %s [%s]" % (core.coq_bool(k1), core.coq_bool(k2), "; ".join(core.coq_bool(b) for b in il))
+            tag = {"stream": "concurrent", "keep": [k1, k2], "interleaving": [int(b) for b in il]}
+            res["cases"].append((expr, obs, tag))
+            res["seen"].append((("conc", k1, k2, il), True))
+            a = obs[0]
+            both = a is not None and 1 in a[1] and 2 in a[1]
+            res["counts"]["concurrent:%s" % ("both_updates" if both else "one_update_lost")] = res["counts"].get("concurrent:%s" % ("both_updates" if both else "one_update_lost"), 0) + 1
+            if obs[2:] == ["ok", "ok"] and not both:
+                res["counts"]["concurrent:silent_loss(both_exit_0)"] = res["counts"].get("concurrent:silent_loss(both_exit_0)", 0) + 1
+            if a is None or not a[1] or 0 not in a[1]:
+                res["fails"].append((dict(tag, observed=obs), "two concurrent `deep patch` commands ended without a complete version in A"))
+    shutil.rmtree(work, ignore_errors=True)
+    return res
+
+
+# --------------------------------------------------------------------------
 # known findings
 # --------------------------------------------------------------------------
 
@@ -2326,12 +2692,16 @@ def run(ctx):
         r_fmt = pool.map_async(cli_fmt_task, ftasks, chunksize=1)
         r_rt = pool.map_async(roundtrip_fmt_task, rtasks, chunksize=1)
         r_hist = pool.map_async(history_task, htasks, chunksize=2)
+        r_opts = pool.map_async(options_task, [(rng.randrange(1 << 30), ctx.thorough, ctx.scratch)], chunksize=1)
+        r_conc = pool.map_async(concurrent_task, [(rng.randrange(1 << 30), ctx.thorough, ctx.scratch)], chunksize=1)
         results = pool.map(pair_task, tasks, chunksize=1)
         rd = r_direct.get()
         results_locale = r_locale.get()
         results_hist = r_hist.get()
         _phase("pair_tasks")
         results_crash, results_fmt, results_rt = r_crash.get(), r_fmt.get(), r_rt.get()
+        results_opts = r_opts.get()
+        results_conc = r_conc.get()
     _phase("pool")
     collect(ctx, results, "c20_cli")
     _phase("coq_cli")
@@ -2349,6 +2719,12 @@ def run(ctx):
         for wit in FORMAT_WITNESSES:
             fmt_witness(ctx, *wit)
         ctx.count("optional_modules:" + ",".join("%s=%s/%s" % (k, fmt_mods()["load"][k], fmt_mods()["save"][k]) for k in sorted(fmt_mods()["load"])))
+    with ctx.extension("Options"):
+        collect(ctx, results_opts, "c20_options", OPT_HEADER)
+        for wit in OPTION_WITNESSES:
+            option_witness(ctx, *wit)
+    with ctx.extension("Concurrent"):
+        collect(ctx, results_conc, "c20_concurrent", CONC_HEADER)
     _phase("formats")
     gcases = [g for r in results for g in r.get("guard_cases", [])]
     ctx.coq_cases("c20_json_guards", GUARD_HEADER, gcases, shard=150, label="json_guardsb on the generated documents")
